@@ -4,7 +4,7 @@ import os, random
 import vlib
 
 SD = os.path.join(vlib.SPECS, "network")
-WRAPS = ["poll", "clock_gettime", "malloc", "calloc", "realloc", "free", "recv", "send", "socket", "connect", "getsockopt", "accept", "close"]
+WRAPS = ["poll", "clock_gettime", "malloc", "calloc", "realloc", "free", "recv", "send", "socket", "connect", "getsockopt", "setsockopt", "accept", "close"]
 EV_SRCS = ["events/events.c", "events/events_immediate.c", "events/events_network.c", "events/events_network_selectstats.c",
            "events/events_timer.c", "datastruct/timerqueue.c", "datastruct/ptrheap.c", "datastruct/elasticarray.c",
            "util/monoclock.c", "util/warnp.c"]
